@@ -752,6 +752,9 @@ def run(res):
         multi_batch(res, rng, 'fkm' if it % 2 == 0 else 'five', stats, terms, info)
     for it in range(40 if quick else 400):
         hist_batch(res, rng, stats, terms, info, rterms, rinfo)
+    if quick:       # the quick tier's 12 batches above leave few frames with unsorted ids: 12 more (the thorough tier has 120)
+        for it in range(12):
+            multi_batch(res, rng, 'five' if it % 2 == 0 else 'fkm', stats, terms, info)
 
     res.cov['wall_impl_s'] = round(time.time() - t0, 1)
     t0 = time.time()
